@@ -170,6 +170,26 @@ def run(R):
                 out["fail"].append({"why": "CLI rename was refused but the tree changed", "rc": rc, "kind": kind,
                                     "tree": cli.tree_json(tree), "search": s, "replace": nn,
                                     "diff": repr(cli.diff_snap(before, after))[:800]})
+    # case-only renames probe the file system with a scratch file: a user's file of that name must survive
+    for j in range(2 if R.tier == "quick" else 24):
+        a, b = g.term_pair()
+        pas, flat = gen.render(a, "Pascal"), "".join(a)
+        d = ("sub/" if j % 2 else "")
+        tree = ([{"p": "sub", "k": "d", "m": 0o755}] if d else []) + [
+            {"p": d + pas + ".txt", "k": "f", "c": b"payload\n", "m": 0o644},
+            {"p": d + (".renamify_case_test" if j % 4 < 2 else ".RENAMIFY_CASE_TEST"), "k": "f", "c": b"the user's own file\n", "m": 0o600}]
+        with cli.Sandbox(tree) as sb:
+            bd = al.tree_dict(sb.tree_entries())
+            rc, o, e = sb.run(["--no-auto-init", "-y", "rename", pas, flat])
+            ad = al.tree_dict(sb.tree_entries())
+            R.case(("probe", j, pas), nontrivial=True)
+            out["kinds"]["case_only_probe"] = out["kinds"].get("case_only_probe", 0) + 1
+            probe = tree[-1]["p"]
+            if ad.get(probe) != bd.get(probe):
+                out["fail"].append({"why": f"a case-only rename destroyed the user's file {probe}", "rc": rc, "tree": cli.tree_json(tree),
+                                    "search": pas, "replace": flat, "after": repr(ad.get(probe))[:100]})
+            elif rc == 0 and (d + pas + ".txt") in ad:
+                out["fail"].append({"why": "case-only rename reported success but did not rename", "tree": cli.tree_json(tree), "search": pas, "replace": flat})
     R.coverage["cli_runs_succeeded"] = cli_ok
     H.close()
     M.close()
